@@ -45,11 +45,13 @@ pub fn any_cpu(start: u64) -> Cpu {
 /// natively; plain structs copied by value are not affected.)
 pub struct Fetch {
     pub found: bool,
+    /// the region's page is currently not executable
+    pub noexec: bool,
     pub bytes: [u8; sim::RLEN],
     pub dirty: [bool; sim::RLEN],
 }
 fn fetch(pc: u64) -> Fetch {
-    let mut f = Fetch { found: false, bytes: [0; sim::RLEN], dirty: [false; sim::RLEN] };
+    let mut f = Fetch { found: false, noexec: false, bytes: [0; sim::RLEN], dirty: [false; sim::RLEN] };
     unsafe {
         let mut i = 0;
         while i < sim::S.NE_ACT {
@@ -57,6 +59,7 @@ fn fetch(pc: u64) -> Fetch {
                 f.found = true;
                 f.bytes = sim::ENT[i].bytes;
                 f.dirty = sim::ENT[i].dirty;
+                f.noexec = sim::ENT[i].noexec;
             }
             i += 1;
         }
@@ -66,6 +69,7 @@ fn fetch(pc: u64) -> Fetch {
                 f.found = true;
                 f.bytes = sim::JIT[j].bytes;
                 f.dirty = sim::JIT[j].dirty;
+                f.noexec = sim::JIT[j].noexec;
             }
             j += 1;
         }
@@ -205,6 +209,10 @@ pub fn run(cpu: &mut Cpu, max: usize) {
             }
             return;
         }
+        if f.noexec {
+            cpu.bad = true; // instruction fetch from a page without execute permission
+            return;
+        }
         let pc = cpu.pc;
         exec_block(cpu, pc, &f.bytes, &f.dirty);
         n += 1;
@@ -218,7 +226,7 @@ pub fn run(cpu: &mut Cpu, max: usize) {
 /// execute exactly the block at cpu.pc
 pub fn run_one_block(cpu: &mut Cpu) {
     let f = fetch(cpu.pc);
-    if !f.found {
+    if !f.found || f.noexec {
         cpu.bad = true;
         return;
     }
